@@ -32,6 +32,7 @@ def task_explore(prop, unit_name, tier, prefix, max_paths, budget_s, regions, qt
 
     worker.init_symbolic()
     fn, params = _unit(prop, unit_name, tier)
+    worker.harness_setup(prop)
     agg = explore.explore(fn, params, prefix, regions, tier, max_paths, budget_s, qtimeout_ms)
     agg["encoded"] = explore.encoded_functions()
     agg["stubs"] = list(worker.STUBS)
